@@ -223,6 +223,27 @@ def main():
                   ["y", "z", "w", "x"], C)
             check(f"compute_marginal[feature,{bm}]", lambda c: (lambda: compute_marginal(c["y"], c["z"], X=as_matrix(c["x"]), feature_name=0, weights=c["w"], n_bins=3, bin_method=bm)),
                   ["y", "z", "w", "x"], C)
+        # several models: a 2-d ndarray (reference), a list of rows, and a polars frame whose column names are NOT in
+        # alphabetical order - the numbers reported for column i are those of column i (the `model` labels themselves differ
+        # by construction and are not compared)
+        if not name3.startswith("Pinball"):
+            zcols = [z, draw(1, 6), draw(1, 6)]
+            Zref = np.asarray(zcols, dtype=float).T.reshape(k, 3)
+
+            def dec_numbers(Z):
+                t = decompose(C["y"]["f64"], Z, C["w"]["f64"], scoring_function=sf3)
+                return t.select([c for c in t.columns if c != "model"])
+            ref = outcome(lambda: dec_numbers(Zref))
+            for kind, Zc in (("rows_list", Zref.tolist()), ("frame_unsorted_names", pl.DataFrame({"model_z": zcols[0], "model_a": zcols[1], "model_m": zcols[2]})),
+                             ("frame_sorted_names", pl.DataFrame({"a": zcols[0], "b": zcols[1], "c": zcols[2]}))):
+                n += 1
+                stats[f"decompose[3 models]:{kind}"] = stats.get(f"decompose[3 models]:{kind}", 0) + 1
+                got = outcome(lambda: dec_numbers(Zc))
+                same = (ref[0] == got[0]) and (close(ref[1], got[1]) if ref[0] == "ok" else ref[1] == got[1])
+                if not same and sum(1 for f in fails if f["case"].get("api") == "decompose[3 models]" and f["case"].get("container") == kind) < 1:
+                    fails.append(dict(case=dict(api="decompose[3 models]", container=kind, data=dict(y=y, cols=zcols, w=w, scoring=name3)),
+                                      observed=dict(float64_ndarray=str(ref)[:300], this_container=str(got)[:300]),
+                                      clauses=["decompose with three forecast columns: the rows (in column order) differ from those for the same numbers as a 2-d float64 ndarray"]))
         # a float feature containing NaN (its rows form the null bin) in every container
         if k >= 3:
             fnan = [rng.choice([0.5, 1.5, 2.5, 3.0]) for _ in range(k)]
